@@ -101,6 +101,7 @@ type Prog struct {
 	Verdicts []bool
 	Panic    string
 	NPick    int
+	NInPlace int
 }
 
 type runner struct {
@@ -113,7 +114,116 @@ type runner struct {
 	scv    []*big.Int // values known to the harness (mirror, used to avoid Inv(0))
 	pts    [3][]kyber.Point
 	unsup  map[string]bool
+	okops  map[string]bool // operations that have succeeded once on a fresh receiver
 	prog   *Prog
+	// InPlace is the percentage of operations whose receiver is an existing
+	// pool object (its value is replaced, the object keeps its identity).
+	inPlace int
+}
+
+// dest says where the result of an operation goes: appended as a new object,
+// or written into the existing object of slot d.
+type dest struct {
+	gi, d int
+	in    bool
+}
+
+func (x *runner) pickDest(gi int, name string) dest {
+	n := len(x.pts[gi])
+	if n > 0 && x.okops[name] && x.r.Chance(x.inPlace) {
+		return dest{gi, x.r.Intn(n), true}
+	}
+	return dest{gi, n, false}
+}
+
+func (x *runner) recvPoint(ds dest) kyber.Point {
+	if ds.in {
+		return x.pts[ds.gi][ds.d]
+	}
+	return newPoint(x.in, x.groups[ds.gi])
+}
+
+// store records the result p of an operation with destination ds.
+func (x *runner) store(ds dest, name string, p kyber.Point, coq, rhs string) {
+	x.okops[name] = true
+	if ds.in {
+		x.pts[ds.gi][ds.d] = p
+		x.prog.NInPlace++
+		x.emit(fmt.Sprintf("OPInto %d %d (%s)", ds.gi, ds.d, coq), fmt.Sprintf("P%d_%d <- %s  [existing object overwritten]", ds.gi, ds.d, rhs))
+		return
+	}
+	x.pts[ds.gi] = append(x.pts[ds.gi], p)
+	x.emit(coq, fmt.Sprintf("P%d_%d := %s", ds.gi, ds.d, rhs))
+}
+
+func (x *runner) pickDestS(name string) (int, bool) {
+	n := len(x.sc)
+	if n > 0 && x.okops["s"+name] && x.r.Chance(x.inPlace) {
+		return x.r.Intn(n), true
+	}
+	return n, false
+}
+
+func (x *runner) storeS(d int, in bool, name string, s kyber.Scalar, coq, rhs string) {
+	x.okops["s"+name] = true
+	if in {
+		x.sc[d] = s
+		x.scv[d] = vh.ScalarVal(s)
+		x.prog.NInPlace++
+		x.emit(fmt.Sprintf("OSInto %d (%s)", d, coq), fmt.Sprintf("s%d <- %s  [existing object overwritten]", d, rhs))
+		return
+	}
+	x.pushScalar(s)
+	x.emit(coq, fmt.Sprintf("s%d := %s", d, rhs))
+}
+
+// touch exercises read-only methods on a random object (filling whatever the
+// implementation caches); it must leave every value as it is.
+func (x *runner) touch() {
+	gi := x.r.Intn(3)
+	if len(x.pts[gi]) == 0 {
+		if len(x.sc) > 0 {
+			s := x.sc[x.r.Intn(len(x.sc))]
+			_, _ = s.MarshalBinary()
+			_ = s.String()
+			_ = s.Clone()
+		}
+		return
+	}
+	p := x.pts[gi][x.r.Intn(len(x.pts[gi]))]
+	vh.Try(func() {
+		_, _ = p.MarshalBinary()
+		_ = p.String()
+		_ = p.Equal(x.pts[gi][x.r.Intn(len(x.pts[gi]))])
+		_ = p.Clone()
+		if x.suite != nil && len(x.pts[0]) > 0 && len(x.pts[1]) > 0 {
+			_ = x.suite.Pair(x.pts[0][x.r.Intn(len(x.pts[0]))], x.pts[1][x.r.Intn(len(x.pts[1]))])
+		}
+	})
+}
+
+// rerep returns a new object holding the same group element as p in another
+// internal representation (freshly decoded, or the result of a computation).
+func (x *runner) rerep(gi int, p kyber.Point) (kyber.Point, string) {
+	g := x.groups[gi]
+	if x.r.Bool() {
+		if b, err := p.MarshalBinary(); err == nil {
+			c := newPoint(x.in, g)
+			if c.UnmarshalBinary(b) == nil {
+				return c, "decoded copy"
+			}
+		}
+	}
+	var c kyber.Point
+	pn, _ := vh.Try(func() {
+		t := newPoint(x.in, g).Pick(vh.NewSeqStream(x.r.Bytes(16)))
+		c = newPoint(x.in, g).Add(p, t)
+		c = newPoint(x.in, g).Sub(c, t)
+	})
+	if pn || c == nil {
+		return p.Clone(), "clone"
+	}
+	return c, "recomputed copy"
 }
 
 // edge draws an edge-biased scalar; unlike vh.EdgeScalar it also covers every
@@ -163,8 +273,12 @@ func (x *runner) pushScalar(s kyber.Scalar) {
 // scalarOperands chooses the receiver of a binary scalar operation: a fresh
 // scalar, or (about a third of the time) a clone of one operand that is then
 // passed as that operand too, so that receiver == first / second / both operands.
-func (x *runner) scalarOperands(a, b int) (recv, oa, ob kyber.Scalar, note string) {
+func (x *runner) scalarOperands(name string, a, b int) (d int, in bool, recv, oa, ob kyber.Scalar, note string) {
 	oa, ob = x.sc[a], x.sc[b]
+	if d, in = x.pickDestS(name); in {
+		// the receiver is the existing object d; it is an operand too whenever d is a or b
+		return d, in, x.sc[d], oa, ob, ""
+	}
 	recv = x.groups[0].Scalar()
 	switch x.r.Intn(9) {
 	case 0:
@@ -192,8 +306,11 @@ func (x *runner) scalarOperands(a, b int) (recv, oa, ob kyber.Scalar, note strin
 }
 
 // pointOperands is the analogue for points of pool gi.
-func (x *runner) pointOperands(gi, a, b int) (recv, oa, ob kyber.Point, note string) {
+func (x *runner) pointOperands(name string, gi, a, b int) (ds dest, recv, oa, ob kyber.Point, note string) {
 	oa, ob = x.pts[gi][a], x.pts[gi][b]
+	if ds = x.pickDest(gi, name); ds.in {
+		return ds, x.pts[gi][ds.d], oa, ob, ""
+	}
 	recv = newPoint(x.in, x.groups[gi])
 	switch x.r.Intn(9) {
 	case 0:
@@ -247,52 +364,85 @@ func (x *runner) stepScalar() {
 		c = 0
 	}
 	switch {
-	case c < 35:
+	case c < 30:
 		v := edge(r, x.q)
-		var s kyber.Scalar
-		if v.IsInt64() && r.Bool() {
-			s = g.Scalar().SetInt64(v.Int64())
-		} else {
+		d, in := x.pickDestS("Const")
+		s := g.Scalar()
+		if in {
+			s = x.sc[d] // a used receiver: whatever it held must be gone afterwards
+		}
+		how := "SetBytes"
+		switch {
+		case v.IsInt64() && r.Bool():
+			how = "SetInt64"
+			s = s.SetInt64(v.Int64())
+		case v.Sign() == 0 && r.Bool():
+			how = "Zero"
+			s = s.Zero()
+		case v.Cmp(big.NewInt(1)) == 0 && r.Bool():
+			how = "One"
+			s = s.One()
+		case in:
+			b := v.Bytes()
+			if s.ByteOrder() == kyber.LittleEndian {
+				for i, j := 0, len(b)-1; i < j; i, j = i+1, j-1 {
+					b[i], b[j] = b[j], b[i]
+				}
+			}
+			s = s.SetBytes(b)
+		default:
 			s = MkScalar(g, v)
 		}
-		x.pushScalar(s)
-		x.emit(fmt.Sprintf("OSConst %s", vh.CoqZ(v)), fmt.Sprintf("s%d := %s", n, v))
+		x.storeS(d, in, "Const", s, fmt.Sprintf("OSConst %s", vh.CoqZ(v)), fmt.Sprintf("%s(%s)", how, v))
+	case c < 36:
+		a := r.Intn(n)
+		d, in := x.pickDestS("Copy")
+		s := g.Scalar()
+		if in {
+			s = x.sc[d]
+		}
+		how := "Set"
+		if r.Bool() {
+			s = s.Set(x.sc[a])
+		} else {
+			how = "Unmarshal(Marshal)"
+			b, err := x.sc[a].MarshalBinary()
+			if err != nil || s.UnmarshalBinary(b) != nil {
+				x.prog.Panic = fmt.Sprintf("re-decoding of an own scalar encoding failed (%x)", b)
+				return
+			}
+		}
+		x.storeS(d, in, "Copy", s, fmt.Sprintf("OSCopy %d", a), fmt.Sprintf("%s(s%d)", how, a))
 	case c < 50:
 		a, b := r.Intn(n), r.Intn(n)
-		rc, oa, ob, al := x.scalarOperands(a, b)
-		x.pushScalar(rc.Add(oa, ob))
-		x.emit(fmt.Sprintf("OSAdd %d %d", a, b), fmt.Sprintf("s%d := s%d + s%d%s", n, a, b, al))
+		d, in, rc, oa, ob, al := x.scalarOperands("Add", a, b)
+		x.storeS(d, in, "Add", rc.Add(oa, ob), fmt.Sprintf("OSAdd %d %d", a, b), fmt.Sprintf("s%d + s%d%s", a, b, al))
 	case c < 60:
 		a, b := r.Intn(n), r.Intn(n)
-		rc, oa, ob, al := x.scalarOperands(a, b)
-		x.pushScalar(rc.Sub(oa, ob))
-		x.emit(fmt.Sprintf("OSSub %d %d", a, b), fmt.Sprintf("s%d := s%d - s%d%s", n, a, b, al))
+		d, in, rc, oa, ob, al := x.scalarOperands("Sub", a, b)
+		x.storeS(d, in, "Sub", rc.Sub(oa, ob), fmt.Sprintf("OSSub %d %d", a, b), fmt.Sprintf("s%d - s%d%s", a, b, al))
 	case c < 75:
 		a, b := r.Intn(n), r.Intn(n)
-		rc, oa, ob, al := x.scalarOperands(a, b)
-		x.pushScalar(rc.Mul(oa, ob))
-		x.emit(fmt.Sprintf("OSMul %d %d", a, b), fmt.Sprintf("s%d := s%d * s%d%s", n, a, b, al))
+		d, in, rc, oa, ob, al := x.scalarOperands("Mul", a, b)
+		x.storeS(d, in, "Mul", rc.Mul(oa, ob), fmt.Sprintf("OSMul %d %d", a, b), fmt.Sprintf("s%d * s%d%s", a, b, al))
 	case c < 83:
 		a := r.Intn(n)
-		rc, oa, _, al := x.scalarOperands(a, a)
-		x.pushScalar(rc.Neg(oa))
-		x.emit(fmt.Sprintf("OSNeg %d", a), fmt.Sprintf("s%d := -s%d%s", n, a, al))
+		d, in, rc, oa, _, al := x.scalarOperands("Neg", a, a)
+		x.storeS(d, in, "Neg", rc.Neg(oa), fmt.Sprintf("OSNeg %d", a), fmt.Sprintf("-s%d%s", a, al))
 	case c < 92:
 		a := r.Intn(n)
 		if x.scv[a].Sign() == 0 {
 			return
 		}
-		rc, oa, _, al := x.scalarOperands(a, a)
-		x.pushScalar(rc.Inv(oa))
-		x.emit(fmt.Sprintf("OSInv %d", a), fmt.Sprintf("s%d := 1/s%d%s", n, a, al))
+		d, in, rc, oa, _, al := x.scalarOperands("Inv", a, a)
+		x.storeS(d, in, "Inv", rc.Inv(oa), fmt.Sprintf("OSInv %d", a), fmt.Sprintf("1/s%d%s", a, al))
 	default:
 		a, b := r.Intn(n), r.Intn(n)
 		if x.scv[b].Sign() == 0 {
 			return
 		}
-		rc, oa, ob, al := x.scalarOperands(a, b)
-		x.pushScalar(rc.Div(oa, ob))
-		x.emit(fmt.Sprintf("OSDiv %d %d", a, b), fmt.Sprintf("s%d := s%d / s%d%s", n, a, b, al))
+		d, in, rc, oa, ob, al := x.scalarOperands("Div", a, b)
+		x.storeS(d, in, "Div", rc.Div(oa, ob), fmt.Sprintf("OSDiv %d %d", a, b), fmt.Sprintf("s%d / s%d%s", a, b, al))
 	}
 }
 
@@ -304,101 +454,103 @@ func (x *runner) stepPoint(gi int) {
 	if n == 0 {
 		c = r.Intn(12)
 	}
+	nm := func(op string) string { return fmt.Sprintf("%s/%d", op, gi) }
 	var p kyber.Point
 	switch {
 	case c < 4:
-		if x.try(fmt.Sprintf("Null/%d", gi), func() { p = newPoint(x.in, g).Null() }) {
-			x.pts[gi] = append(x.pts[gi], p)
-			x.emit(fmt.Sprintf("OPNull %d", gi), fmt.Sprintf("P%d_%d := O", gi, n))
+		ds := x.pickDest(gi, nm("Null"))
+		if x.try(nm("Null"), func() { p = x.recvPoint(ds).Null() }) {
+			x.store(ds, nm("Null"), p, fmt.Sprintf("OPNull %d", gi), "O")
 		}
 	case c < 9:
-		if x.try(fmt.Sprintf("Base/%d", gi), func() { p = newPoint(x.in, g).Base() }) {
-			x.pts[gi] = append(x.pts[gi], p)
-			x.emit(fmt.Sprintf("OPBase %d", gi), fmt.Sprintf("P%d_%d := B", gi, n))
+		ds := x.pickDest(gi, nm("Base"))
+		if x.try(nm("Base"), func() { p = x.recvPoint(ds).Base() }) {
+			x.store(ds, nm("Base"), p, fmt.Sprintf("OPBase %d", gi), "B")
 		}
 	case c < 16: // Pick / Hash / Embed: unknown logarithm
 		d := r.BigBelow(x.q)
 		ok := false
-		how := ""
-		switch r.Intn(3) {
-		case 0:
-			how = "Pick"
-			ok = x.try(fmt.Sprintf("Pick/%d", gi), func() { p = newPoint(x.in, g).Pick(vh.NewSeqStream(r.Bytes(16))) })
-		case 1:
-			how = "Hash"
-			if h, is := newPoint(x.in, g).(interface{ Hash([]byte) kyber.Point }); is {
-				ok = x.try(fmt.Sprintf("Hash/%d", gi), func() { p = h.Hash(r.Bytes(1 + r.Intn(40))) })
+		how := []string{"Pick", "Hash", "Embed"}[r.Intn(3)]
+		ds := x.pickDest(gi, nm(how))
+		switch how {
+		case "Pick":
+			ok = x.try(nm(how), func() { p = x.recvPoint(ds).Pick(vh.NewSeqStream(r.Bytes(16))) })
+		case "Hash":
+			if h, is := x.recvPoint(ds).(interface{ Hash([]byte) kyber.Point }); is {
+				ok = x.try(nm(how), func() { p = h.Hash(r.Bytes(1 + r.Intn(40))) })
 			}
 		default:
-			how = "Embed"
-			ok = x.try(fmt.Sprintf("Embed/%d", gi), func() {
-				q := newPoint(x.in, g)
+			ok = x.try(nm(how), func() {
+				q := x.recvPoint(ds)
 				l := q.EmbedLen()
 				p = q.Embed(r.Bytes(r.Intn(l+1)), vh.NewSeqStream(r.Bytes(16)))
 			})
 		}
 		if ok {
-			x.pts[gi] = append(x.pts[gi], p)
 			x.prog.NPick++
-			x.emit(fmt.Sprintf("OPFresh %d %s", gi, vh.CoqZ(d)), fmt.Sprintf("P%d_%d := %s()", gi, n, how))
+			x.store(ds, nm(how), p, fmt.Sprintf("OPFresh %d %s", gi, vh.CoqZ(d)), how+"()")
 		}
-	case c < 22:
+	case c < 24:
 		a := r.Intn(n)
-		how := "Clone"
-		switch r.Intn(3) {
-		case 0:
+		how := []string{"Clone", "Set", "Unmarshal(Marshal)", "Unmarshal(Marshal)"}[r.Intn(4)]
+		ds := dest{gi, n, false}
+		if how != "Clone" {
+			ds = x.pickDest(gi, nm(how))
+		}
+		switch how {
+		case "Clone":
 			p = x.pts[gi][a].Clone()
-		case 1:
-			how = "Set"
-			p = newPoint(x.in, g).Set(x.pts[gi][a])
+		case "Set":
+			p = x.recvPoint(ds).Set(x.pts[gi][a])
 		default:
 			// the same value in its freshly decoded internal representation
-			how = "Unmarshal(Marshal)"
 			b, err := x.pts[gi][a].MarshalBinary()
-			p = newPoint(x.in, g)
+			p = x.recvPoint(ds)
 			if err != nil || p.UnmarshalBinary(b) != nil {
 				x.prog.Panic = fmt.Sprintf("re-decoding of an own encoding failed (%x)", b)
 				return
 			}
 		}
-		x.pts[gi] = append(x.pts[gi], p)
-		x.emit(fmt.Sprintf("OPCopy %d %d", gi, a), fmt.Sprintf("P%d_%d := %s(P%d_%d)", gi, n, how, gi, a))
-	case c < 42:
+		x.store(ds, nm(how), p, fmt.Sprintf("OPCopy %d %d", gi, a), fmt.Sprintf("%s(P%d_%d)", how, gi, a))
+	case c < 56:
+		op, coq, sym := "Add", "OPAdd", "+"
+		if c >= 44 {
+			op, coq, sym = "Sub", "OPSub", "-"
+		}
 		a, b := r.Intn(n), r.Intn(n)
 		if j, ok := x.equalPartner(gi, a); ok && r.Chance(35) {
 			b = j // the same group element held in two internal representations
 		}
-		rc, oa, ob, al := x.pointOperands(gi, a, b)
-		if x.try(fmt.Sprintf("Add/%d", gi), func() { p = rc.Add(oa, ob) }) {
-			x.pts[gi] = append(x.pts[gi], p)
-			x.emit(fmt.Sprintf("OPAdd %d %d %d", gi, a, b), fmt.Sprintf("P%d_%d := P%d_%d + P%d_%d%s", gi, n, gi, a, gi, b, al))
+		ds, rc, oa, ob, al := x.pointOperands(nm(op), gi, a, b)
+		if !ds.in && r.Chance(15) {
+			// second operand: the first one again, as a different object in another representation
+			b = a
+			ob, al = x.rerep(gi, oa)
+			al = "  [second operand: " + al + " of the first]"
 		}
-	case c < 54:
-		a, b := r.Intn(n), r.Intn(n)
-		if j, ok := x.equalPartner(gi, a); ok && r.Chance(35) {
-			b = j
+		if x.try(nm(op), func() {
+			if op == "Add" {
+				p = rc.Add(oa, ob)
+			} else {
+				p = rc.Sub(oa, ob)
+			}
+		}) {
+			x.store(ds, nm(op), p, fmt.Sprintf("%s %d %d %d", coq, gi, a, b), fmt.Sprintf("P%d_%d %s P%d_%d%s", gi, a, sym, gi, b, al))
 		}
-		rc, oa, ob, al := x.pointOperands(gi, a, b)
-		if x.try(fmt.Sprintf("Sub/%d", gi), func() { p = rc.Sub(oa, ob) }) {
-			x.pts[gi] = append(x.pts[gi], p)
-			x.emit(fmt.Sprintf("OPSub %d %d %d", gi, a, b), fmt.Sprintf("P%d_%d := P%d_%d - P%d_%d%s", gi, n, gi, a, gi, b, al))
-		}
-	case c < 62:
+	case c < 63:
 		a := r.Intn(n)
-		rc, oa, _, al := x.pointOperands(gi, a, a)
-		if x.try(fmt.Sprintf("Neg/%d", gi), func() { p = rc.Neg(oa) }) {
-			x.pts[gi] = append(x.pts[gi], p)
-			x.emit(fmt.Sprintf("OPNeg %d %d", gi, a), fmt.Sprintf("P%d_%d := -P%d_%d%s", gi, n, gi, a, al))
+		ds, rc, oa, _, al := x.pointOperands(nm("Neg"), gi, a, a)
+		if x.try(nm("Neg"), func() { p = rc.Neg(oa) }) {
+			x.store(ds, nm("Neg"), p, fmt.Sprintf("OPNeg %d %d", gi, a), fmt.Sprintf("-P%d_%d%s", gi, a, al))
 		}
 	case c < 88:
 		if ns == 0 {
 			return
 		}
 		a, s := r.Intn(n), r.Intn(ns)
-		rc, oa, _, al := x.pointOperands(gi, a, a)
-		if x.try(fmt.Sprintf("Mul/%d", gi), func() { p = rc.Mul(x.sc[s], oa) }) {
-			x.pts[gi] = append(x.pts[gi], p)
-			x.emit(fmt.Sprintf("OPMul %d %d %d", gi, s, a), fmt.Sprintf("P%d_%d := s%d * P%d_%d%s", gi, n, s, gi, a, al))
+		ds, rc, oa, _, al := x.pointOperands(nm("Mul"), gi, a, a)
+		if x.try(nm("Mul"), func() { p = rc.Mul(x.sc[s], oa) }) {
+			x.store(ds, nm("Mul"), p, fmt.Sprintf("OPMul %d %d %d", gi, s, a), fmt.Sprintf("s%d * P%d_%d%s", s, gi, a, al))
 		}
 	default:
 		if ns == 0 {
@@ -406,12 +558,12 @@ func (x *runner) stepPoint(gi int) {
 		}
 		s := r.Intn(ns)
 		// a group without a supported Base() (GT of the BLS12-381 back-ends) has no implicit generator either
-		if !x.try(fmt.Sprintf("Base/%d", gi), func() { newPoint(x.in, g).Base() }) {
+		if !x.try(nm("Base"), func() { newPoint(x.in, g).Base() }) {
 			return
 		}
-		if x.try(fmt.Sprintf("MulBase/%d", gi), func() { p = newPoint(x.in, g).Mul(x.sc[s], nil) }) {
-			x.pts[gi] = append(x.pts[gi], p)
-			x.emit(fmt.Sprintf("OPMulBase %d %d", gi, s), fmt.Sprintf("P%d_%d := s%d * nil", gi, n, s))
+		ds := x.pickDest(gi, nm("MulBase"))
+		if x.try(nm("MulBase"), func() { p = x.recvPoint(ds).Mul(x.sc[s], nil) }) {
+			x.store(ds, nm("MulBase"), p, fmt.Sprintf("OPMulBase %d %d", gi, s), fmt.Sprintf("s%d * nil", s))
 		}
 	}
 }
@@ -471,11 +623,14 @@ func partition(pts []kyber.Point, rep *vh.Report, where string) []int {
 
 // RunGroup generates and runs one program on a single group instance.
 func RunGroup(r *vh.Rng, in Inst, nops int, rep *vh.Report) *Prog {
-	x := &runner{r: r, in: in, q: Order(in.G), unsup: map[string]bool{}, prog: &Prog{}}
+	x := &runner{r: r, in: in, q: Order(in.G), unsup: map[string]bool{}, okops: map[string]bool{}, prog: &Prog{}, inPlace: 25}
 	x.groups[0] = in.G
 	x.prog.Q = x.q
 	for len(x.prog.Ops) < nops && x.prog.Panic == "" {
 		before := len(x.prog.Ops)
+		if x.r.Chance(12) {
+			x.touch()
+		}
 		if len(x.sc) < 2 || (len(x.sc) < 10 && x.r.Chance(30)) {
 			x.stepScalar()
 		} else if len(x.pts[0]) < 16 {
@@ -492,10 +647,13 @@ func RunGroup(r *vh.Rng, in Inst, nops int, rep *vh.Report) *Prog {
 // RunPairing generates and runs one program on a pairing suite (three pools + Pair/ValidatePairing).
 func RunPairing(r *vh.Rng, ps PSuite, nops int, rep *vh.Report) *Prog {
 	in := Inst{Name: ps.Name, G: ps.S.G1()}
-	x := &runner{r: r, in: in, q: Order(ps.S.G1()), unsup: map[string]bool{}, prog: &Prog{}, suite: ps.S}
+	x := &runner{r: r, in: in, q: Order(ps.S.G1()), unsup: map[string]bool{}, okops: map[string]bool{}, prog: &Prog{}, suite: ps.S, inPlace: 25}
 	x.groups = [3]kyber.Group{ps.S.G1(), ps.S.G2(), ps.S.GT()}
 	x.prog.Q = x.q
 	for tries := 0; len(x.prog.Ops) < nops && x.prog.Panic == "" && tries < 10*nops; tries++ {
+		if x.r.Chance(12) {
+			x.touch()
+		}
 		c := x.r.Intn(100)
 		switch {
 		case len(x.sc) < 2 || (len(x.sc) < 8 && c < 18):
